@@ -157,8 +157,14 @@ uint64_t rtosc_float2secfracs(float secfracsf)
        <=> secfracs = base_without_comma * 2^(32-exp-4*hexdigits_after_comma)
     */
     int lshift = 32-exp-(hexdigits_after_comma<<2);
-    assert(lshift > 0);
-    secfracs <<= lshift;
+    // a float below 2^-8 can have mantissa bits below 2^-32 (e.g. 0.001f is
+    // 0x1.0624dep-10): those are cut off, never shifted by a negative count
+    if(lshift >= 0)
+        secfracs <<= lshift;
+    else if(lshift > -64)
+        secfracs >>= -lshift;
+    else
+        secfracs = 0;
     assert((secfracs & 0xFFFFFFFF) == secfracs);
 
     return secfracs;
